@@ -143,5 +143,34 @@ void dump_base(void) { int i; for (i = 0; i <= lastdfa; ++i) mkdata(base[i]); }
 void dump_hash(void) { mkdata(dhash[0]); }
 void dump_acc(void) { int i; for (i = 0; i <= lastdfa; ++i) mkdata(dfaacc[i]); }		/* control */
 void dump_wrongopt(void) { int i; for (i = 1; i <= lastdfa + 1; ++i) mkdata(accsiz[i - 1]); }	/* control */
+void setup2(void); void build2(void); void make_tables2(void);
 void make_tables(void) { if (ctrl.fullspd) { dump_base(); dump_acc(); dump_wrongopt(); } dump_hash(); }
-int flex_main(void) { setup(); build(); make_tables(); return 0; }
+int flex_main(void) { setup(); setup2(); build(); build2(); make_tables(); make_tables2(); return 0; }
+
+/* R6, jam-state slot */
+int *def, jamstate, numtemps, jambase;
+void setup2(void) { def = allocate_array(100, sizeof(int)); }
+void mkdeftbl(void)
+{
+	jamstate = lastdfa + 1;
+	base[jamstate] = jambase;		/* conforming; control: def[jamstate] is not stored */
+}
+void dump_base_jam(void) { int i; for (i = 1; i <= lastdfa; ++i) mkdata(base[i]); mkdata(base[i]); }
+void dump_def(void) { int i, total_states = lastdfa + numtemps; for (i = 1; i <= total_states; ++i) mkdata(def[i]); }	/* control */
+void dump_after(void) { int i; for (i = 1; i <= lastdfa; ++i) mkdata(accsiz[i]); mkdata(accsiz[i]); }		/* control */
+void build2(void) { int i; for (i = 1; i <= lastdfa; ++i) def[i] = 0; mkdeftbl(); }
+void make_tables2(void) { dump_base_jam(); dump_def(); dump_after(); }
+int flex_main2(void) { return 0; }
+
+/* ---------------------------------------------------------------- R7 */
+union acc_union { int *set; int state; };
+union acc_union *acc;
+int reject;
+void acc_store(int ds, int *list, int rule)
+{
+	if (reject) acc[ds].set = list;
+	else acc[ds].state = rule;
+}
+int good_union_reader(int ds) { return (reject && !acc[ds].set) || (!reject && !acc[ds].state); }
+int good_union_after_store(int ds, int *l) { acc[ds].set = l; return acc[ds].set[0]; }
+int bad_union_reader(int ds) { return !acc[ds].set; }		/* control: wide member read in either mode */
